@@ -10,7 +10,7 @@
    buf_size_bytes argument.  Preconditions of the C contract are boolean guards:
      copy_pre  = both buffers are large enough for the addressed ranges, allocations < 2^61 bytes
      buf_pre   = size <= allocation, allocation < 2^61 bytes, offset is a size_t, bytes < 256. *)
-From Verif Require Import Bits CPrims CPrimsThm F16 F16Thm F16ArithThm CppPrims CppPrimsThm CppPrimsMoreThm.
+From Verif Require Import Bits CPrims CPrimsThm F16 F16Thm F16ArithThm CppPrims CppPrimsThm CppPrimsMoreThm PyPrims PyPrimsThm PyPrimsMoreThm.
 Open Scope N_scope.
 
 (* ---------------------------------------------------------------------------------------------
@@ -313,3 +313,119 @@ Theorem C14_cpp_subspan_spec :
           k + (o + size_bits) / 8 <= sp_size s).
 Proof. exact subspans_spec_b. Qed.
 Print Assumptions C14_cpp_subspan_spec.
+
+(* ---------------------------------------------------------------------------------------------
+   Python: Serializer / Deserializer / ZeroExtendingBuffer as state machines (Prims/PyPrims.v).
+   Inv s       = every bit of the buffer at a position >= the cursor is zero (true of Serializer.new, preserved by every add method)
+   appended s s' n f = the cursor advanced by n, the buffer kept its length, the bits below the old cursor are unchanged,
+                       the n bits from the old cursor on are f 0 .. f (n-1), everything after is zero.
+   The capacity hypotheses are what Serializer.new(size) provides: one spare byte after the last byte written. *)
+Theorem C14_py_new_inv : forall n, Inv (ser_new n) /\ bytes_ok (s_buf (ser_new n)).
+Proof. exact ser_new_inv. Qed.
+Print Assumptions C14_py_new_inv.
+
+Theorem C14_py_appended_preserves_inv : forall s s' n f, appended s s' n f -> Inv s'.
+Proof. exact appended_inv. Qed.
+Print Assumptions C14_py_appended_preserves_inv.
+
+(* the unaligned byte loop (`buf[i] |= (b << left) & 0xFF; buf[i+1] = b >> right`) appends exactly the bytes, at EVERY bit offset *)
+Theorem C14_py_add_unaligned_bytes_appends :
+  forall (s : ser) (value : bytes),
+    Inv s -> bytes_ok (s_buf s) -> bytes_ok value -> s_off s / 8 + blen value < blen (s_buf s) \/ value = [] ->
+    exists s', add_unaligned_bytes s value = Some s' /\ appended s s' (8 * blen value) (bit value).
+Proof. exact add_unaligned_bytes_appends. Qed.
+Print Assumptions C14_py_add_unaligned_bytes_appends.
+
+Theorem C14_py_add_unaligned_unsigned_appends :
+  forall (s : ser) (value bits : N),
+    Inv s -> bytes_ok (s_buf s) -> 1 <= bits -> s_off s / 8 + (bits + 7) / 8 < blen (s_buf s) ->
+    exists s', add_unaligned_unsigned s value bits = Some s' /\ appended s s' bits (N.testbit value).
+Proof. exact add_unaligned_unsigned_appends. Qed.
+Print Assumptions C14_py_add_unaligned_unsigned_appends.
+
+Theorem C14_py_add_unaligned_bit_appends :
+  forall (s : ser) (x : bool),
+    Inv s -> bytes_ok (s_buf s) -> s_off s / 8 < blen (s_buf s) ->
+    exists s', add_unaligned_bit s x = Some s' /\ appended s s' 1 (fun _ => x).
+Proof. exact add_unaligned_bit_appends. Qed.
+Print Assumptions C14_py_add_unaligned_bit_appends.
+
+Theorem C14_py_add_aligned_bytes_appends :
+  forall (s : ser) (x : bytes),
+    Inv s -> bytes_ok (s_buf s) -> bytes_ok x -> s_off s mod 8 = 0 -> s_off s / 8 + blen x <= blen (s_buf s) ->
+    exists s', add_aligned_bytes s x = Some s' /\ appended s s' (8 * blen x) (bit x).
+Proof. exact add_aligned_bytes_appends. Qed.
+Print Assumptions C14_py_add_aligned_bytes_appends.
+
+Theorem C14_py_add_aligned_unsigned_appends :
+  forall (s : ser) (value bits : N),
+    Inv s -> bytes_ok (s_buf s) -> 1 <= bits -> s_off s mod 8 = 0 -> s_off s / 8 + (bits + 7) / 8 <= blen (s_buf s) ->
+    exists s', add_aligned_unsigned s value bits = Some s' /\ appended s s' bits (N.testbit value).
+Proof. exact add_aligned_unsigned_appends. Qed.
+Print Assumptions C14_py_add_aligned_unsigned_appends.
+
+(* signed values in range are appended in two's complement, aligned or not *)
+Theorem C14_py_add_signed_appends :
+  forall (aligned : bool) (s : ser) (value : Z) (bits : N),
+    Inv s -> bytes_ok (s_buf s) -> 2 <= bits -> (- 2 ^ (Z.of_N bits - 1) <= value < 2 ^ (Z.of_N bits - 1))%Z ->
+    (if aligned then s_off s mod 8 = 0 /\ s_off s / 8 + (bits + 7) / 8 <= blen (s_buf s)
+     else s_off s / 8 + (bits + 7) / 8 < blen (s_buf s)) ->
+    exists s', (if aligned then add_aligned_signed s value bits else add_unaligned_signed s value bits) = Some s' /\
+               appended s s' bits (fun k => Z.testbit value (Z.of_N k)).
+Proof. exact add_signed_appends. Qed.
+Print Assumptions C14_py_add_signed_appends.
+
+(* pad_to_alignment moves the cursor onto the next multiple of n; the bits skipped are zero, the buffer is unchanged *)
+Theorem C14_py_pad_to_alignment_spec :
+  forall (s : ser) (n : N),
+    Inv s -> bytes_ok (s_buf s) -> 0 < n ->
+    let pad := (n - s_off s mod n) mod n in
+    (s_off s + pad + 7) / 8 <= blen (s_buf s) ->
+    pad_to_alignment s n = Some (mkser (s_buf s) (s_off s + pad)) /\ (s_off s + pad) mod n = 0 /\
+    Inv (mkser (s_buf s) (s_off s + pad)).
+Proof. exact pad_to_alignment_spec. Qed.
+Print Assumptions C14_py_pad_to_alignment_spec.
+
+Example C14_py_hypotheses_satisfiable :
+  exists s', add_unaligned_unsigned (ser_new 2) 5 3 = Some s' /\ s_buf s' = [5; 0; 0] /\ s_off s' = 3.
+Proof. eexists. vm_compute. auto. Qed.
+
+(* Deserializer: bits beyond the end of the buffer read as zero (`bit` is false there), for every offset and length *)
+Theorem C14_py_fetch_unaligned_bytes_spec :
+  forall (d : des) (count : N),
+    bytes_ok (d_buf d) ->
+    exists out d', fetch_unaligned_bytes d count = Some (out, d') /\ d_buf d' = d_buf d /\ d_off d' = d_off d + 8 * count /\
+      blen out = count /\ bytes_ok out /\ forall k, bit out k = (k <? 8 * count) && bit (d_buf d) (d_off d + k).
+Proof. exact fetch_unaligned_bytes_spec. Qed.
+Print Assumptions C14_py_fetch_unaligned_bytes_spec.
+
+Theorem C14_py_fetch_unaligned_unsigned_spec :
+  forall (d : des) (bits : N),
+    bytes_ok (d_buf d) -> 1 <= bits ->
+    exists v d', fetch_unaligned_unsigned d bits = Some (v, d') /\ d_buf d' = d_buf d /\ d_off d' = d_off d + bits /\
+      forall k, N.testbit v k = (k <? bits) && bit (d_buf d) (d_off d + k).
+Proof. exact fetch_unaligned_unsigned_spec. Qed.
+Print Assumptions C14_py_fetch_unaligned_unsigned_spec.
+
+Theorem C14_py_fetch_aligned_unsigned_spec :
+  forall (d : des) (bits : N),
+    bytes_ok (d_buf d) -> 1 <= bits -> d_off d mod 8 = 0 ->
+    exists v d', fetch_aligned_unsigned d bits = Some (v, d') /\ d_buf d' = d_buf d /\ d_off d' = d_off d + bits /\
+      forall k, N.testbit v k = (k <? bits) && bit (d_buf d) (d_off d + k).
+Proof. exact fetch_aligned_unsigned_spec. Qed.
+Print Assumptions C14_py_fetch_aligned_unsigned_spec.
+
+(* signed fetches sign-extend with the same function as the C target *)
+Theorem C14_py_fetch_signed_spec :
+  forall (aligned : bool) (d : des) (bits : N),
+    bytes_ok (d_buf d) -> 2 <= bits -> (aligned = true -> d_off d mod 8 = 0) ->
+    exists u z d', (if aligned then fetch_aligned_unsigned d bits else fetch_unaligned_unsigned d bits) = Some (u, d') /\
+      (if aligned then fetch_aligned_signed d bits else fetch_unaligned_signed d bits) = Some (z, d') /\
+      z = sign_extend bits u /\ u < 2 ^ bits /\ d_off d' = d_off d + bits.
+Proof. exact fetch_signed_spec. Qed.
+Print Assumptions C14_py_fetch_signed_spec.
+
+Theorem C14_py_fetch_unaligned_bit_spec :
+  forall d : des, fetch_unaligned_bit d = (bit (d_buf d) (d_off d), mkdes (d_buf d) (d_off d + 1)).
+Proof. exact fetch_unaligned_bit_spec. Qed.
+Print Assumptions C14_py_fetch_unaligned_bit_spec.
